@@ -40,6 +40,36 @@ impl Rng {
     }
 }
 
+// ------------------------------------------------------------------ input classes shared by drivers
+/// a non-negative number whose VLQ text has a uniformly chosen number of digits, 1..=maxdigits
+/// (0..15, 16..511, 512..16383, 16384..524287, ..., below 2^(5*maxdigits-1))
+pub fn vlq_class(rng: &mut Rng, maxdigits: u64) -> i64 {
+    let d = 1 + rng.below(maxdigits) as i64;
+    let lo = if d == 1 { 0 } else { 1i64 << (5 * (d - 1) - 1) };
+    let hi = (1i64 << (5 * d - 1)) - 1;
+    if rng.chance(1, 4) { *rng.pick(&[lo, hi]) } else { rng.range(lo, hi) }
+}
+/// a length next to a power of two (2^k - 2 ..= 2^k + 2, k in lo..=hi): buffer, block and word sizes
+pub fn boundary_len(rng: &mut Rng, lo: u32, hi: u32) -> usize {
+    let k = lo + rng.below((hi - lo + 1) as u64) as u32;
+    ((1i64 << k) + rng.range(-2, 2)).max(0) as usize
+}
+const UNI: &[char] = &['a', 'b', 'c', '.', '/', 'j', 's', ':', ' ', '-', 'é', 'ü', 'ß', '€', '中', '‐', '😀', '𝒳'];
+/// 0..=maxlen characters of mixed UTF-8 width (1 to 4 bytes), so that every byte offset is sometimes
+/// inside a character
+pub fn uni_string(rng: &mut Rng, maxlen: u64) -> String {
+    (0..rng.below(maxlen + 1)).map(|_| *rng.pick(UNI)).collect()
+}
+const SRC_PREFIX: &[&str] = &["", "", "", "", "/", "http:", "https:", "HTTP:", "Https:", "http", "ht", "webpack:///", "~/", "./", "../", "//"];
+/// a source name: an optional scheme-like or path prefix followed by mixed-width characters
+pub fn gen_src_name(rng: &mut Rng) -> String {
+    format!("{}{}", rng.pick(SRC_PREFIX), uni_string(rng, 9))
+}
+/// a source root: like a source name, with zero to two trailing slashes
+pub fn gen_root_name(rng: &mut Rng) -> String {
+    format!("{}{}{}", rng.pick(SRC_PREFIX), uni_string(rng, 7), rng.pick(&["", "", "/", "//"]))
+}
+
 pub struct Emitter {
     w: Box<dyn Write>,
     src: &'static str,
